@@ -518,6 +518,9 @@ func (wr *Writer) appendStruct(rv reflect.Value, depth int, si *sinfo) {
 			wr.buf = append(wr.buf, cs...)
 			indented = true
 		}
+		if 1 < len(fi.index) && nilEmbedded(rv, fi.index) {
+			continue
+		}
 		if 0 < addr {
 			wr.buf, v, stat = fi.Append(fi, wr.buf, rv, addr, !wr.HTMLUnsafe)
 		} else {
